@@ -156,6 +156,15 @@ check('C15', 'fault_enumeration',
       "Lifecycle handlers run asynchronously, so only counts, cumulative lower bounds from a synchronous start stamp and canary-gated upper bounds are verdicts; 'never reconnected' only >= 15 s after restore with attempts stopped.",
       "fault-pattern enumeration over a killable-listener rig; event-count and wire-log monitors; reference back-off model; jitter canary; hook H5", "DESIGN.md §3 C15")
 
+check('C05', 'exploration',
+      "Go programs: namespace sets of size 1..4 drawn from 11 look-alike names (prefixes of one another, digits, spaces, unicode, '?'), multiplexed on one Manager or on separate Managers, CONNECT reply order permuted "
+      "by per-namespace middleware delays, 40 interleaved steps {emit c->s, emit s->c, acks both ways, namespace broadcast} with every payload tagged by its namespace, then a single-namespace disconnect and probe "
+      "round trips on all the others; oracle: set membership on the recorded log (a handler / ack / broadcast recorder of X only ever sees payloads tagged X). Raw protocol peer: 8 kinds of packets for namespaces "
+      "that are not joined or whose CONNECT is parked in a middleware must close the connection without any handler running; an event sent right after the CONNECT reply must be served (unforced and with hook H4 "
+      "widening the admission window).",
+      "The Go client normalises '' to '/', so that pair is exercised through the raw peer only.",
+      "tagged-payload membership oracle over generated programs; raw wire peer for invalid-state packets; hook-widened admission window", "DESIGN.md §3 C05")
+
 for pid in ['C01','C02','C03','C04','C05','C06','C07','C08','C10','C11','C12','C13','C14','C15','C16','C17','C18','C19']:
     if pid not in P:
         na(pid, "check not built yet in this round (planned, see DESIGN.md §3); not claimed until its monitor runs clean on the unchanged tree")
